@@ -1517,3 +1517,67 @@ pub fn degenerate_dynamic_block(dna: &mut Dna) -> Vec<u8> {
     w.pad(0);
     w.out
 }
+
+/// Deterministic valid stream for the header-size enumeration: one dynamic block with exactly
+/// (hlit, hdist) code-length entries and the requested minimum HCLEN slack, a few literals and
+/// (when a distance code is available) references, followed by EOB. `variant` picks the code
+/// lengths of the padding symbols (zero, i.e. trailing-zero slack, or real codes).
+pub fn header_size_stream(hlit: usize, hdist: usize, variant: u64) -> Option<(Vec<u8>, Vec<u8>)> {
+    let mut mix = Mix::new(0x5EED ^ ((hlit as u64) << 16) ^ ((hdist as u64) << 8) ^ variant);
+    let mut lit_used = [false; 288];
+    let mut dist_used = [false; 32];
+    lit_used[b'a' as usize] = true;
+    lit_used[b'b' as usize] = true;
+    lit_used[256] = true;
+    lit_used[257] = true; // length 3
+    // the last symbol of each table gets a real code for variant 1 (no trailing zero), else stays 0
+    let last_lit_real = variant % 2 == 1 && hlit <= 286;
+    if last_lit_real {
+        lit_used[hlit - 1] = true;
+    }
+    dist_used[0] = true;
+    dist_used[1] = true;
+    if variant % 2 == 1 && hdist <= 30 {
+        dist_used[hdist - 1] = true;
+    }
+    if hdist < 2 {
+        dist_used[1] = false;
+    }
+    let mut spare = 0;
+    let mut ll = build_random_code(&lit_used[..], 15, 0, &mut mix, None, &mut spare);
+    let n_dist = dist_used.iter().filter(|&&b| b).count();
+    let mut dl = if n_dist >= 2 {
+        build_random_code(&dist_used[..], 15, 0, &mut mix, None, &mut spare)
+    } else {
+        // a single distance code cannot be complete: leave the table empty-but-present is invalid
+        // for this library, so use one code of length 1 only when hdist == 1 (expected Err)
+        let mut v = vec![0u8; 32];
+        v[0] = 1;
+        v
+    };
+    // symbols beyond the requested table sizes must not have codes
+    if (hlit..288).any(|i| ll[i] != 0) || (hdist..32).any(|i| dl[i] != 0) {
+        return None;
+    }
+    ll.truncate(hlit);
+    dl.truncate(hdist);
+    let mut seq = ll.clone();
+    seq.extend_from_slice(&dl);
+    let mut w = BitW::new();
+    w.put(1, 1);
+    w.put(2, 2);
+    emit_header_from_lengths(&mut w, hlit, hdist, &seq, mix.next());
+    let mut toks = vec![Tok::Lit(b'a'), Tok::Lit(b'b'), Tok::Lit(b'a'), Tok::Lit(b'b'), Tok::Lit(b'a')];
+    if n_dist >= 2 {
+        toks.push(Tok::Ref { len: 3, dist: 1, irregular: false });
+        toks.push(Tok::Ref { len: 3, dist: 2, irregular: false });
+    }
+    let mut ll2 = ll;
+    ll2.resize(288, 0);
+    let mut dl2 = dl;
+    dl2.resize(32, 0);
+    emit_tokens(&mut w, &toks, &ll2, &dl2);
+    w.pad((variant >> 1) as u8);
+    let plain = tokens_to_plain(&[], &toks);
+    Some((w.out, plain))
+}
